@@ -2,8 +2,26 @@
 agenda, no heuristic, no cache, no ids), the beam model, and the per-tree
 oracles (licensing, score accounting, labels).  Shares nothing with parsing.h /
 parsing.pyx except the grammar callables and the score matrices."""
+import functools
 import math
+import sys
 import numpy
+
+
+def deep(fn):
+    """the harness's own walks over derivations recurse once or twice per level; they must not be the
+    component that gives up on a 600-word chain (the code under test keeps the interpreter's limit)"""
+    @functools.wraps(fn)
+    def wrapper(*args, **kwargs):
+        old = sys.getrecursionlimit()
+        if old >= 50000:
+            return fn(*args, **kwargs)
+        sys.setrecursionlimit(60000)
+        try:
+            return fn(*args, **kwargs)
+        finally:
+            sys.setrecursionlimit(old)
+    return wrapper
 
 
 class RefOverflow(Exception):
@@ -267,19 +285,25 @@ def count_derivations(n, categories, admitted, memo, roots, max_chain=12):
 
 # ------------------------------------------------------------------ per-tree oracles
 
-def canon_tree(tree):
+def _canon_tree(tree):
     """id()-free canonical form of a Tree (used for equality of responses)"""
     if tree.is_leaf:
         tok = tree.children[0]
         return ('L', str(tree.cat), tree.op_string, tree.op_symbol, bool(tree.head_is_left),
                 tuple((k, tok[k]) for k in tok.keys()))
     return ('T', str(tree.cat), tree.op_string, tree.op_symbol, bool(tree.head_is_left),
-            tuple(canon_tree(c) for c in tree.children))
+            tuple([_canon_tree(c) for c in tree.children]))
 
 
+@deep
+def canon_tree(tree):
+    return _canon_tree(tree)
+
+
+@deep
 def canon_response(resp):
     """response = list of ScoredTree"""
-    return tuple((canon_tree(st.tree), float(st.score)) for st in resp)
+    return tuple([(_canon_tree(st.tree), float(st.score)) for st in resp])
 
 
 def is_placeholder(resp):
@@ -295,6 +319,7 @@ def score_tolerance(terms_abs_sum):
     return 1e-5 * max(1.0, terms_abs_sum)
 
 
+@deep
 def tree_score(tree, tag, dep, cat_index, penalty):
     """(score in float64, sum of |terms|) recomputed from the tree's own flags;
     raises KeyError if a leaf category is not in the tag inventory"""
@@ -330,6 +355,7 @@ def tree_score(tree, tag, dep, cat_index, penalty):
     return acc[0], acc[1]
 
 
+@deep
 def check_licensed(tree, tokens, categories, memo, roots, maybe_admitted=None):
     """C02 oracle for one tree.  returns list of complaint strings (empty = ok)."""
     complaints = []
@@ -373,6 +399,7 @@ def check_licensed(tree, tokens, categories, memo, roots, maybe_admitted=None):
     return complaints
 
 
+@deep
 def check_labels(tree, memo):
     """C12 (parser half) oracle: every node's (label, symbol, head) is that of a
     grammar result for its children with the node's category.
@@ -411,6 +438,7 @@ def check_labels(tree, memo):
     return complaints, counts[0], counts[1]
 
 
+@deep
 def tree_shape_stats(tree):
     st = {'binary': 0, 'unary': 0, 'right_headed': 0, 'max_unary_chain': 0}
 
